@@ -651,6 +651,10 @@ class Merger:
                 " source Hash because only the keys would be"
                 " preserved.  Please adjust your merge to target a"
                 " suitable node.", insert_at)
+        elif not isinstance(lhs, CommentedMap):
+            raise MergeException(
+                "Impossible to add Hash data to non-Hash destination.",
+                insert_at)
         else:
             # Merge a dict into a dict
             self.logger.debug(
